@@ -1025,6 +1025,7 @@ package decimal
 //@   hint[after:setBytes#1] old(gobwf(buf)) ==> assert(forall k in 0..len(result) :: result[k] < B)
 //@   hint[after:set#1] bind(gM, V(result))
 //@   hint[after:set#1] bind(gL, len(result))
+//@   hint[after:set#1] bind(gO, result.off)
 //@   hint[after:set#1] bind(gE, exp)
 //@   ensures[empty,C17] len(buf) == 0 ==> result == nil && z.prec == 0 && z.mode == 0 && z.acc == 0 && z.form == zero && z.neg == false
 //@   loop 1 invariant[range] 0 - 1 <= rangeindex && rangeindex < len(mant)
@@ -1196,14 +1197,71 @@ package decimal
 //@ extern (*math/big.Int).Neg (z, x)
 //@   ensures[ret] result == z
 
+//@ lemma V2_zero(m array, lo, hi)
+//@   requires lo <= hi
+//@   requires forall k in lo..hi :: m[k] == 0
+//@   ensures V2(m, lo, hi) == 0
+//@   induction hi from lo
+//@   use V2def(m, lo, hi-1)
+
+//@ func makeNat(z []big.Word, n int) []big.Word
+//@   requires[size] 0 <= n && n <= 4398046511104
+//@   ensures[len] len(result) == n
+//@   ensures[reuse] n <= cap(z) ==> result.arr == z.arr && result.off == z.off && cap(result) == cap(z)
+//@   ensures[fresh] n > cap(z) ==> fresh(result) && result.off == 0 && (forall k in 0..n :: result[k] == 0)
+
+//@ func (x dec) digits() uint
+//@   inline
+
+// decToNat: repeated division of a copy of x by 2^64 (inner loop: one pass of schoolbook
+// division with mulAddWWW_g as the base-conversion step), one binary word per pass.  Proved:
+// V2(z) + V(rest)*2^(64*len z) == V(x) after every pass, hence at the end; x untouched; no
+// panic.  Assumed (float64 arithmetic is uninterpreted): the size estimate is between 1 and
+// 2^40 words, and it is large enough, i.e. nothing is left of the copy (gR == 0).
 //@ func decToNat(z []big.Word, x dec) []big.Word
-//@   requires[words] wordsok(x) && natnorm(x)
-//@   ensures[value,C14] V2(result) == old(V(x))
-//@   ensures[operand,C09] samewords(x, old(x))
-//@   status assumed radix conversion; the float64 size estimate is part of the assumption (bounded: big-conversions)
+//@   requires[words] wordsok(x) && natnorm(x) && len(x) <= 1099511627776
+//@   modifies memcap(z)
+//@   ghost gR, gn, gT, gA, gL, gO
+//@   ensures[value,C14] V2(result) + gR*P2(gn) == old(V(x))
+//@   ensures[complete,assumed,C14] gR == 0
+//@   ensures[norm,C14] len(result) == 0 || result[len(result)-1] != 0
+//@   ensures[operand,C09,C18] samewords(x, old(x))
+//@   hint[entry] bind(gR, 0)
+//@   hint[entry] bind(gn, 0)
+//@   hint[before:makeNat#2] assume(1 <= arg1 && arg1 <= 1099511627776)
+//@   hint[after:set#1] bind(gA, result.arr)
+//@   hint[after:set#1] bind(gL, len(result))
+//@   hint[after:set#1] bind(gO, result.off)
+//@   loop 1 invariant[range] 0 <= i && i <= len(z)
+//@   loop 1 invariant[bufs]  fresh(zz) && zz.arr == gA && zz.arr != z.arr && zz.arr != x.arr && zz.off == gO && len(zz) <= gL
+//@   loop 1 invariant[words] wordsok(zz)
+//@   loop 1 invariant[value] V(zz)*P2(i) + V2(z[:i]) == old(V(x))
+//@   loop 1 invariant[rest]  samewords(x, old(x))
+//@   loop 1 modifies mem(z), mem(zz)
+//@   loop 2 hint[entry] bind(gT, V(zz))
+//@   loop 2 invariant[range] -1 <= j && j < len(zz) && 0 <= r && r < 18446744073709551616
+//@   loop 2 invariant[words] wordsok(zz)
+//@   loop 2 invariant[value] V(zz[:j+1]) + P(j+1)*(18446744073709551616*V(zz[j+1:]) + r) == gT
+//@   loop 2 modifies mem(zz)
+//@   hint[after:mulAddWWW_g#1] Vdef(zz, 0, j)
+//@   hint[after:mulAddWWW_g#1] Pdef(j)
+//@   hint[after:mulAddWWW_g#1] mul_eq(result0*18446744073709551616 + result1, r*B + zz[j], P(j))
+//@   hint[after:mulAddWWW_g#1] mul_eq(P(j+1), B*P(j), 18446744073709551616*V(zz[j+1:]) + r)
+//@   loop 2 hint V_low(zz, j+1, len(zz))
+//@   hint[after:norm#1] mul_eq(18446744073709551616*V(zz) + r, gT, P2(i))
+//@   hint[after:norm#1] P2def(i)
+//@   hint[after:norm#1] mul_eq(P2(i+1), 18446744073709551616*P2(i), V(zz))
+//@   loop 1 hint V2def(z, 0, i-1)
+//@   loop 3 invariant[range] 0 <= i && i <= len(z)
+//@   loop 3 invariant[zeros] forall k in i..len(z) :: z[k] == 0
+//@   hint[ret] V2_split(z, 0, i, len(z))
+//@   hint[ret] V2_zero(z, i, len(z))
+//@   hint[ret] bind(gR, V(zz))
+//@   hint[ret] bind(gn, len(z))
 
 //@ func (x *Decimal) Int(z *big.Int) (*big.Int, Accuracy)
 //@   requires[wf] opnd(x)
+//@   modifies memall()
 //@   ghost gT, grem, gmp, gN
 //@   ensures[zero,C14] x.form == zero ==> result1 == 0 && result0 != nil
 //@   ensures[inf,C14] x.form == inf ==> result0 == nil && result1 == (x.neg ? 1 : 0 - 1)
@@ -1236,6 +1294,7 @@ package decimal
 //@ func (x *Decimal) Rat(z *big.Rat) (*big.Rat, Accuracy)
 //@   nomerge
 //@   requires[wf] opnd(x) && (x.form == finite ==> len(x.mant) <= 10000000)
+//@   modifies memall()
 //@   ghost gN, gD
 //@   ensures[inf,C14] x.form == inf ==> result0 == nil && result1 == (x.neg ? 1 : 0 - 1)
 //@   ensures[exact,C14] x.form != inf ==> result0 != nil && result1 == 0
